@@ -8,7 +8,7 @@ ap.add_argument("--breaks", required=True); ap.add_argument("--needs", required=
 ap.add_argument("--caught", default=""); ap.add_argument("--missed", default=""); ap.add_argument("--note", default="")
 ap.add_argument("--confirm", default="")
 a = ap.parse_args()
-src = f"/tmp/seed/{a.id}-out"; dst = f"/verif/seeded/{a.name}"
+src = os.environ.get("SEED_ROOT", "/tmp/seed2") + f"/{a.id}-out"; dst = f"/verif/seeded/{a.name}"
 os.makedirs(dst, exist_ok=True)
 shutil.copy(f"{src}/{a.v}.diff", f"{dst}/patch.diff")
 shutil.copy(f"{src}/seeded_demo_{a.v}.rs", f"{dst}/demo.rs")
